@@ -484,6 +484,7 @@ def emit_item(b, out, meta):
     it = srcfile(rel).find_item(kind, name)
     text = it['text']
     text, _ = apply_rw(text, b.d['rw'], '%s::%s' % (rel, name))
+    text = re.sub(r'(?m)^\s*#\[[^\]]*\]\s*\n', '', text)      # derive-helper attributes on variants/fields (e.g. #[from(ignore)])
     if b.d['derive']:
         out.append('#[derive(%s)]' % b.d['derive'])
     if not text.lstrip().startswith('pub'):
